@@ -748,7 +748,7 @@ class Lexer(object):
     identifier_start = r'(?:' + r'[a-zA-Z_$]' + r'|' + LETTER + r')+'
     identifier_part = (
         r'(?:' + COMBINING_MARK + r'|' + r'[0-9a-zA-Z_$]' + r'|' + DIGIT +
-        r'|' + CONNECTOR_PUNCTUATION + r')*'
+        r'|' + CONNECTOR_PUNCTUATION + r'|' + LETTER + r')*'
     )
     identifier = identifier_start + identifier_part
 
